@@ -363,7 +363,6 @@ fn sample_rate_code<'a, E>(
 where
     E: ParseError<&'a [u8]>,
 {
-    debug_assert!(tag <= 0b1110);
     move |input| {
         let remaining_input = input;
         let (remaining_input, data) = if tag == 0b1100 {
